@@ -84,7 +84,7 @@ def jsonable(x):
     return repr(x)
 
 
-def deep_key(x, _memo=None, _depth=0):
+def deep_key(x, _memo=None, _depth=0, exclude=()):
     """Hashable canonical rendering of *everything* reachable from x.
 
     Meant for `canon`: instead of hand-picking the fields future behaviour can depend on, take the
@@ -116,13 +116,13 @@ def deep_key(x, _memo=None, _depth=0):
     if hasattr(x, "__dict__"):
         cls = type(x)
         inst = vars(x)
-        items = [(k, deep_key(v, _memo, _depth + 1)) for k, v in sorted(inst.items())]
+        items = [(k, deep_key(v, _memo, _depth + 1)) for k, v in sorted(inst.items()) if not (_depth == 0 and k in exclude)]
         if (cls.__module__ or "").startswith("mingus"):
             for klass in cls.__mro__:
                 if klass is object:
                     continue
                 for k, v in sorted(vars(klass).items()):
-                    if k.startswith("__") or k in inst or callable(v) or isinstance(v, (staticmethod, classmethod, property)):
+                    if k.startswith("__") or k in inst or (_depth == 0 and k in exclude) or callable(v) or isinstance(v, (staticmethod, classmethod, property)):
                         continue
                     items.append(("class:" + k, deep_key(v, _memo, _depth + 1)))
         return (cls.__module__ + "." + cls.__qualname__,) + tuple(items)
